@@ -48,7 +48,7 @@ RULE = ("(a) histories: every ordered pair and triple over a pool of %d state-pe
         " Also: the scheduler gates at Parser.read_token (every token fetch, also from the look-ahead queue); a fourth history configuration hands sources over as TokenScanner objects; the pool contains parses abandoned while look-ahead tokens are buffered; every document and pickle list returned earlier in a history is re-checked for later modification (G15); two-way interleaving sets above the tier's limit are sampled uniformly instead of enumerated (counted separately)." % len(POOL))
 ASSUMPTIONS = ["each concurrent parse uses its own Parser/TokenMatcher/AstBuilder instances (the library's classes are not documented as thread-safe objects; the property is about parsers working on different documents)",
                "results are compared after subtracting the id offset of the shared generator"]
-DECIDING = ["dialect_pairs_checked", "hashseed_documents_compared", "histories", "G13.evaluated", "schedules", "compile_purity_checks", "free_running_parses"]
+DECIDING = ["dialect_pairs_checked", "compiles_on_reused_compiler", "hashseed_documents_compared", "histories", "G13.evaluated", "schedules", "compile_purity_checks", "free_running_parses"]
 CONFIGS = ("none", "en", "fr", "en+scanner")
 
 
@@ -295,6 +295,22 @@ def run_schedule(jobs, schedule):
     for t in ths:
         t.join()
     return [g.result for g in gates], turns
+
+
+def interleaved(texts, r, n_schedules=3, stop=False):
+    """Every text parsed (and compiled) by its own Parser — no matcher passed, as most callers do — in its own thread, the
+    threads taking turns at token fetches under n random schedules.  -> (solo results, [results per schedule])"""
+    install_gate()
+    jobs = [(t, stop, "none") for t in texts]
+    solo_res = [one_run(*fresh("none"), t, stop) for t in texts]
+    turns = [turns_of(t, stop) for t in texts]
+    out = []
+    for _ in range(n_schedules):
+        pool = [i for i, n in enumerate(turns) for _ in range(n + 2)]
+        r.shuffle(pool)
+        res, _ = run_schedule(jobs, pool)
+        out.append(res)
+    return solo_res, out
 
 
 class _CountGate:
@@ -564,6 +580,40 @@ def run_dialect_pairs(spec, M):
                                         "reused": short(got, 300), "fresh": short(solo_res[b], 300)}, case)
 
 
+def _no_pickle_ids(pickles):
+    return [{k: ([{kk: vv for kk, vv in st.items() if kk != "id"} for st in v] if k == "steps" else v) for k, v in p.items() if k != "id"} for p in pickles]
+
+
+def run_compiler_reuse(spec, M):
+    """One Compiler kept by the caller, every document parsed by a Parser of its own (node ids start at 0 each time, so the
+    ids of different documents coincide): apart from its own pickle ids the Compiler's result equals that of a fresh one."""
+    for i in range(spec["start"], spec["start"] + spec["n"]):
+        r = rng(spec["seed"], ID, "compiler_reuse", i)
+        comp = Compiler(IdGenerator())
+        texts = [docmodel.render(r, size=r.choice(["small", "medium"])).text if r.random() < 0.6 else POOL[r.choice(NAMES)] for _ in range(r.randint(3, 7))]
+        M.case(h64(["compiler_reuse", texts]))
+        for n, text in enumerate(texts):
+            try:
+                doc = Parser().parse(text)
+            except ParserError:
+                continue
+            except Exception:
+                break
+            doc = dict(doc, uri="u")
+            try:
+                got = comp.compile(copy.deepcopy(doc))
+                want = Compiler(IdGenerator()).compile(copy.deepcopy(doc))
+            except Exception as e:
+                M.violation("C15.history", {"what": "compile raised on a reused Compiler", "error": repr(e)[:160]}, {"kind": "compiler_reuse", "texts": texts})
+                break
+            M.count("compiles_on_reused_compiler")
+            if _no_pickle_ids(got) != _no_pickle_ids(want):
+                M.violation("C15.history", {"what": "a Compiler that has compiled other documents (parsed by other Parser objects, so with coinciding node ids) gives other pickles than a fresh Compiler",
+                                            "position": n, "reused": short(_no_pickle_ids(got), 240), "fresh": short(_no_pickle_ids(want), 240)},
+                            {"kind": "compiler_reuse", "texts": texts})
+                break
+
+
 def run_hashseed(spec, M):
     """Determinism across processes: the same documents in fresh interpreters that differ only in PYTHONHASHSEED (set and
     dict-of-str iteration order, id() values): the envelopes must be identical."""
@@ -613,6 +663,7 @@ def plan(tier, seed):
                           "long": 40 if q else 1500, "generated": 30 if q else 800, "seed": seed, "n": 1})
     specs.append({"family": "markdown", "seed": seed, "n": 1})
     specs.append({"family": "w0", "seed": seed, "n": 1})
+    specs += shards("compiler_reuse", 120 if q else 6000, 40 if q else 500, seed)
     specs.append({"family": "hashseed", "seeds": ["0", "1", "2", "77", "4242"] if q else ["0", "1", "2", "3", "5", "8", "13", "77", "4242", "99991"], "seed": seed, "n": 1})
     for part in range(8):
         specs.append({"family": "dialect_pairs", "part": part, "parts": 8, "sample": 800 if q else None, "seed": seed, "n": 1})
@@ -669,12 +720,25 @@ def run_shard(spec, M):
         run_dialect_pairs(spec, M)
     elif f == "hashseed":
         run_hashseed(spec, M)
+    elif f == "compiler_reuse":
+        run_compiler_reuse(spec, M)
     elif f == "free":
         run_free(spec, M)
 
 
 def replay(case, M):
     k = case["kind"]
+    if k == "compiler_reuse":
+        comp = Compiler(IdGenerator())
+        for text in case["texts"]:
+            try:
+                doc = dict(Parser().parse(text), uri="u")
+            except ParserError:
+                continue
+            if _no_pickle_ids(comp.compile(copy.deepcopy(doc))) != _no_pickle_ids(Compiler(IdGenerator()).compile(copy.deepcopy(doc))):
+                M.violation("C15.history", {"what": "a Compiler that has compiled other documents gives other pickles than a fresh Compiler"}, case)
+                return
+        return
     if k == "hashseed":
         run_hashseed({"seeds": case["seeds"]}, M)
         return
